@@ -385,6 +385,9 @@ def composite [Sc α] (backdrop source : Color α) : Color α :=
   let bd := toRgba8 backdrop
   let src := toRgba8 source
   let a := src.alpha + bd.alpha * (1.0 - src.alpha)
+  -- both fully transparent: keep the backdrop's channels (0 / 0 otherwise)
+  if feq a 0.0 then fromRgba8 bd.r bd.g bd.b 0.0
+  else
   fromRgba8 (compositeChannel src.r src.alpha bd.r bd.alpha a)
             (compositeChannel src.g src.alpha bd.g bd.alpha a)
             (compositeChannel src.b src.alpha bd.b bd.alpha a) a
